@@ -19,7 +19,6 @@ mod tests;
 use smol_str::SmolStr;
 use std::collections::HashMap;
 use std::fmt::Debug;
-use std::iter::Peekable;
 
 pub use self::iter::{PathSegmentIterator, UriForestIterator, UriPart, UriPartIterator};
 
@@ -83,63 +82,34 @@ impl<D> UriForest<D> {
     /// Inserts 'uri' into this forest and associates 'node_data' with it.
     pub fn insert(&mut self, uri: &str, node_data: D) {
         let UriForest { trees } = self;
-        let mut segment_iter = PathSegmentIterator::new(uri).peekable();
+        let mut segment_iter = PathSegmentIterator::new(uri);
 
         if let Some(segment) = segment_iter.next() {
-            match trees.get_mut(segment) {
-                Some(root) => {
-                    // A tree exists in the forest so traverse it until we find where to start
-                    // inserting segments
-                    traverse_insert(segment, root, segment_iter, node_data)
-                }
-                None => {
-                    // No tree exists, build a new one
-                    if segment_iter.peek().is_some() {
-                        let node = trees.entry(segment.into()).or_insert(TreeNode::new(None));
-                        insert_uri(segment_iter, node, node_data);
-                    } else {
-                        trees.insert(segment.into(), TreeNode::new(Some(node_data)));
-                    }
-                }
+            let mut node = trees
+                .entry(segment.into())
+                .or_insert_with(|| TreeNode::new(None));
+            for segment in segment_iter {
+                node = node
+                    .descendants
+                    .entry(segment.into())
+                    .or_insert_with(|| TreeNode::new(None));
             }
+            node.update_data(node_data);
         }
     }
 
     /// Attempts to remove 'uri' from this forest, returning any associated data.
     pub fn remove(&mut self, uri: &str) -> Option<D> {
         let UriForest { trees } = self;
-        let mut segment_iter = PathSegmentIterator::new(uri).peekable();
+        let mut segment_iter = PathSegmentIterator::new(uri);
 
-        match segment_iter.next() {
-            Some(segment) => {
-                let data = match trees.get_mut(segment) {
-                    Some(root) => {
-                        if root.has_descendants() {
-                            // The node has descendants that need to be traversed
-                            let data = traverse_remove(root, segment_iter);
-                            if !root.has_data() && !root.has_descendants() {
-                                data
-                            } else {
-                                return data;
-                            }
-                        } else {
-                            // The node has no descendants so remove it directly
-                            None
-                        }
-                    }
-                    None => return None,
-                };
-
-                match data {
-                    Some(data) => {
-                        trees.remove(segment);
-                        Some(data)
-                    }
-                    None => trees.remove(segment)?.data,
-                }
-            }
-            None => None,
+        let segment = segment_iter.next()?;
+        let root = trees.get_mut(segment)?;
+        let data = traverse_remove(root, segment_iter);
+        if !root.has_data() && !root.has_descendants() {
+            trees.remove(segment);
         }
+        data
     }
 
     /// Returns an optional mutable reference to the data associated at 'uri'
@@ -235,129 +205,22 @@ impl<D> UriForest<D> {
     }
 }
 
-fn traverse_remove<'l, D, I>(
-    current_node: &mut TreeNode<D>,
-    mut segment_iter: Peekable<I>,
-) -> Option<D>
+/// Removes the data at the node reached from 'current_node' by the remaining segments and prunes
+/// every node on the way that is left with neither data nor descendants.
+fn traverse_remove<'l, D, I>(current_node: &mut TreeNode<D>, mut segment_iter: I) -> Option<D>
 where
     I: Iterator<Item = &'l str>,
 {
-    // Scan down the tree with two cursors. One for the current node and one for the next segment
-    // in the URI
     match segment_iter.next() {
         Some(segment) => {
-            // Does the current segment exist in the tree?
-            return match current_node.get_descendant_mut(segment) {
-                // It does. Scan ahead to see if there is another segment in the URI
-                Some(descendant) => match segment_iter.peek() {
-                    // There is another segment in the URI. We will recursively call ourself if the
-                    // next segment exists in the URI or we will return None if it does not
-                    Some(next_segment) => {
-                        if descendant.has_descendant(next_segment) {
-                            // We've made as much progress as we can in this iteration. Recurse
-                            let data = traverse_remove(descendant, segment_iter);
-
-                            if !descendant.has_descendants() && !current_node.has_data() {
-                                // We want to prune the current node from the tree iff it does not
-                                // have any data associated with it and it has no descendants
-                                current_node.remove_descendant(segment);
-                            }
-
-                            data
-                        } else {
-                            // The requested node does not exist in the tree
-                            None
-                        }
-                    }
-                    // We've reached the end of the URI
-                    None => {
-                        // This is a junction node so we cannot remove it
-                        if descendant.has_descendants() {
-                            descendant.take_data()
-                        } else {
-                            // This is a leaf node, remove it and return the data
-                            current_node
-                                .remove_descendant(segment)
-                                .expect("Missing node")
-                                .data
-                        }
-                    }
-                },
-                None => {
-                    // The requested node does not exist in the tree
-                    None
-                }
-            };
+            let descendant = current_node.get_descendant_mut(segment)?;
+            let data = traverse_remove(descendant, segment_iter);
+            if !descendant.has_data() && !descendant.has_descendants() {
+                current_node.remove_descendant(segment);
+            }
+            data
         }
-        None => None,
-    }
-}
-
-fn traverse_insert<'l, D, I>(
-    current_segment: &str,
-    current_node: &mut TreeNode<D>,
-    mut segment_iter: Peekable<I>,
-    node_data: D,
-) where
-    I: Iterator<Item = &'l str>,
-{
-    if let Some(segment) = segment_iter.next() {
-        match current_node.get_descendant_mut(segment) {
-            Some(descendant) => {
-                if descendant.has_descendants() {
-                    if segment_iter.peek().is_some() {
-                        traverse_insert(segment, descendant, segment_iter, node_data)
-                    } else {
-                        // There aren't any more segments in the URI and the descendant node matches
-                        // the segment, update the data
-                        descendant.update_data(node_data);
-                    }
-                } else if segment_iter.peek().is_none() {
-                    // There aren't any more segments in the URI and the descendant node matches
-                    // the segment, update the data
-                    descendant.update_data(node_data);
-                }
-            }
-            None => {
-                if current_segment == segment {
-                    // The current node matches the segment, update the data
-                    current_node.update_data(node_data);
-                } else if segment_iter.peek().is_none() {
-                    // There's no more segments left so insert a new node
-                    current_node.add_descendant(segment, TreeNode::new(Some(node_data)));
-                } else {
-                    // We've reached a leaf. Insert the current node and then write the remaining
-                    // URI segments from it
-                    let current_node = current_node.add_descendant(segment, TreeNode::new(None));
-                    insert_uri(segment_iter, current_node, node_data);
-                }
-            }
-        }
-    }
-}
-
-fn insert_uri<'l, I, D>(segment_iter: I, mut node: &mut TreeNode<D>, node_data: D)
-where
-    I: Iterator<Item = &'l str>,
-{
-    let mut segment_iter = segment_iter.peekable();
-    loop {
-        match (segment_iter.next(), segment_iter.peek().is_some()) {
-            (Some(segment), false) => {
-                // There are no more segments remaining, write a leaf node
-                node.add_descendant(segment, TreeNode::new(Some(node_data)));
-                return;
-            }
-            (Some(segment), true) => {
-                // There are more segments remaining
-                node = node.add_descendant(segment, TreeNode::new(None));
-            }
-            (None, _) => {
-                // Unreachable when this function is called with more than one segment in the
-                // iterator but it's possible that this function will be called with none
-                return;
-            }
-        }
+        None => current_node.take_data(),
     }
 }
 
@@ -394,14 +257,6 @@ impl<D> TreeNode<D> {
     #[cfg(test)]
     fn get_descendant(&self, segment: &str) -> Option<&TreeNode<D>> {
         self.descendants.get(segment)
-    }
-
-    fn has_descendant(&mut self, segment: &str) -> bool {
-        self.descendants.contains_key(segment)
-    }
-
-    fn add_descendant(&mut self, segment: &str, node: TreeNode<D>) -> &mut TreeNode<D> {
-        self.descendants.entry(segment.into()).or_insert(node)
     }
 
     fn has_descendants(&self) -> bool {
